@@ -71,6 +71,12 @@ CLAIMED = {
   "note": "Trusted: Lean kernel + Mathlib; that prefix++unit names denote prefix x unit when read back rests on C07 (theorem for the order, exhaustive computation for the database); substance property rendering and unit-list entries are covered by the oracle in the C16/C09 streams, not by these theorems.",
   "design_ref": "DESIGN.md §7 C06",
  },
+ "C11": {
+  "technique": "Lean 4 model of Display, lexer and parser validated text-for-text and tree-for-tree against the implementation on every tree (exhaustive to depth 2/3 + random) with the round trip itself as oracle; kernel-checked well-formedness of the precedence tables for every operator (the unbounded parse_print theorem is future work)",
+  "text": "The printer model (Print.display, parameterised by the Precedence::from/next tables), the lexer and the recursive-descent parser are executable Lean definitions; for every generated expression tree the implementation's Display text, the tree obtained by parsing that text back, and the ExprString JSON round trip are compared with the model's text and re-parsed tree, and the oracle checks that the re-parsed tree equals the original with no trailing input. Coverage is exhaustive over every constructor in every operand position to depth 2 (quick) / 3 (thorough) over a small leaf alphabet plus 20 000 / 200 000 random trees to depth 5. prec_tables_wf is a complete check of the finite operator table (left operand always one level tighter; right operand one level tighter except for the right-associative ^). The general theorem parse (lex (display e)) = e by induction over Expr is not yet proved: for this property the check is correspondence plus partial proof.",
+  "note": "Trusted: Lean kernel; the tree alphabet excludes names that only a double-quoted identifier can produce and literals whose default printing is not exact (the property's own exclusion); ExprReply parts are not rendered by the core crate and are not compared.",
+  "design_ref": "DESIGN.md §7 C11, Appendix A.1",
+ },
 }
 
 NOT_YET = {
